@@ -364,6 +364,13 @@ func (a *scriptActor) doOp(ctx vivid.ActorContext, m umsg) {
 			x.ev(map[string]any{"e": "Tell", "a": m.Arg, "p": a.name, "m": id, "s": "nop"})
 			ctx.Tell(r, umsg{ID: id, Op: "nop"})
 		}
+	case "tellself":
+		// two messages of the actor to itself (the mailbox is entered directly, not through a reference)
+		for i := 0; i < 2; i++ {
+			id := x.newID()
+			x.ev(map[string]any{"e": "Tell", "a": a.name, "p": a.name, "m": id, "s": "nop"})
+			ctx.TellSelf(umsg{ID: id, Op: "nop"})
+		}
 	case "watch":
 		if r := x.ref(m.Arg); r != nil {
 			x.ev(map[string]any{"e": "Watch", "a": m.Arg, "p": a.name})
